@@ -114,7 +114,7 @@ def bin_fn(ops_src, sym):
 
 
 def gen_binary(src, ops_src):
-    rows_out, ret_out = {}, {}
+    rows_out, ret_out, guard_out = {}, {}, {}
     for sym, lean in BIN.items():
         fname = bin_fn(ops_src, sym)
         body = fn_body(src, fname, 2)
@@ -126,6 +126,14 @@ def gen_binary(src, ops_src):
             raise TranslateError("%s: unrecognised retType rule" % fname)
         if not re.search(r"switch\s*\(retType\)", body):
             raise TranslateError("%s: does not switch on retType" % fname)
+        pre = re.sub(r"//[^\n]*", "", body.split("switch")[0])
+        pre = re.sub(r"const int retType = [^;]*;", "", pre).strip()
+        if pre == "":
+            guard_out[lean] = False
+        elif re.fullmatch(r'checkIntegerDivision\(a, b, retType, "%s"\);' % re.escape(sym), pre) and lean in ("div", "mod"):
+            guard_out[lean] = True
+        else:
+            raise TranslateError("%s: unrecognised statements before the switch: %s" % (fname, pre[:120]))
         rows = case_rows(body, fname)
         res = {}
         for t in TYS:
@@ -146,7 +154,7 @@ def gen_binary(src, ops_src):
             else:
                 raise TranslateError("%s: unrecognised row for %s: %s" % (fname, lab, stmt))
         rows_out[lean] = res
-    return rows_out, ret_out
+    return rows_out, ret_out, guard_out
 
 
 # ---------------------------------------------------------------- integerLiteral (literal typing)
@@ -309,6 +317,32 @@ def gen_literal(src):
     return term, "false"
 
 
+DIV_GUARD = ("static void checkIntegerDivision(const primitive &a, const primitive &b, const int retType, const char *opName) { "
+             "if ((retType == primitiveType::float_) || (retType == primitiveType::double_)) { return; } "
+             "if (b.to<uint64_t>() == 0) { OCCA_FORCE_ERROR(\"Division by zero in operator \" << opName); } "
+             "const bool overflows = ( ((retType == primitiveType::int32_) && (a.to<int32_t>() == std::numeric_limits<int32_t>::min()) "
+             "&& (b.to<int32_t>() == -1)) || ((retType == primitiveType::int64_) && (a.to<int64_t>() == std::numeric_limits<int64_t>::min()) "
+             "&& (b.to<int64_t>() == -1)) ); if (overflows) { OCCA_FORCE_ERROR(\"Integer overflow in operator \" << opName); } }")
+
+
+def gen_divguard(src, guards):
+    """primitive::div / mod may call checkIntegerDivision(a, b, retType, op) before the switch: zero divisors and
+    INT_MIN / -1 raise instead of trapping.  Both or neither; the helper must have exactly the known body."""
+    if guards["div"] != guards["mod"]:
+        raise TranslateError("primitive::div and primitive::mod disagree on checkIntegerDivision")
+    if any(v for k, v in guards.items() if k not in ("div", "mod")):
+        raise TranslateError("checkIntegerDivision called outside div/mod")
+    if not guards["div"]:
+        return "false"
+    m = re.search(r"\n  static void checkIntegerDivision\(.*?\n  \}\n", src, re.S)
+    if not m:
+        raise TranslateError("checkIntegerDivision is called but not defined")
+    norm = re.sub(r"\s+", " ", re.sub(r"//[^\n]*", "", m.group(0))).strip()
+    if norm != DIV_GUARD:
+        raise TranslateError("checkIntegerDivision has an unrecognised body: " + norm[:300])
+    return "true"
+
+
 def gen_shortcircuit(src):
     m = re.search(r"primitive binaryOpNode::evaluate\(\) const \{\n(.*?)\n    \}\n", src, re.S)
     if not m:
@@ -355,7 +389,8 @@ def gen():
     ops = read("src/occa/internal/lang/operator.cpp")
     ranks = gen_rank(hdr)
     un = gen_unary(src, ops)
-    rows, ret = gen_binary(src, ops)
+    rows, ret, guards = gen_binary(src, ops)
+    div_guard = gen_divguard(src, guards)
     lit, byvalue = gen_literal(src)
     sc = gen_shortcircuit(read("src/occa/internal/lang/expr/binaryOpNode.cpp"))
     gen_ternary(read("src/occa/internal/lang/expr/ternaryOpNode.cpp"))
@@ -392,6 +427,8 @@ def gen():
         out.append("  | .%s => %s" % (k, ret[k]))
     out += ["", "/-- binaryOpNode::evaluate returns before evaluating the right operand of && / || when the left decides -/",
             "def shortCircuit : Bool := %s" % sc, "",
+            "/-- primitive::div / mod raise (checkIntegerDivision) for a zero divisor and for INT_MIN / -1 at int32_/int64_ -/",
+            "def divGuard : Bool := %s" % div_guard, "",
             "/-- primitive::load types an integer literal from its value (integerLiteral) and not from the suffix alone -/",
             "def literalTypedByValue : Bool := %s" % byvalue, "",
             "/-- type and stored value of an integer literal with magnitude `value` (translated from primitive.cpp) -/",
